@@ -1,7 +1,7 @@
 (* Extract.v — extraction of the executable model to OCaml.
    Directives: only those of ExtrOcamlBasic (bool, option, unit, prod, list,
    sumbool, sumor -> native OCaml types).  positive/N/Z/nat stay Coq inductives. *)
-From PauLie Require Import Pauli Matrix Sym ClosureN LieInv Star Validator.
+From PauLie Require Import Pauli Matrix Sym ClosureN LieInv Star Validator Member.
 Require Extraction ExtrOcamlBasic.
 Extraction Language OCaml.
 Extraction "oracle.ml"
@@ -10,4 +10,5 @@ Extraction "oracle.ml"
   closure_strs closure_card enc dec
   lie_inv gen_components_strs
   algprops algprops_old algebra_terms dla_dim dla_dim_old name_dim2
-  reduction_check_strs shape_acct_strs.
+  reduction_check_strs shape_acct_strs
+  member_strs space_strs.
